@@ -12,6 +12,7 @@
 
 using namespace vf;
 namespace vf { std::vector<TypeOps>& registry() { static std::vector<TypeOps> r; return r; } }
+void forms_stage(const std::string& prop);   // engines/codec/forms.cpp: every Serializer/Deserializer/Protocol form over hand-written types
 
 // ---------------------------------------------------------------- helpers
 static Cat fromnop(nop::ErrorStatus e) {
@@ -766,6 +767,7 @@ int vf::engine_main() {
       if (!a.replay() && !mine(c.idx * 7 + (uint64_t)ci)) continue;
       if (a.only_case >= 0 && a.only_case != ci) continue;
       ran = true;
+      if (fl & F_UNBOUNDED) rep().count("cases_on_unbounded_buffer_types");
       if (P == "C01") { c01_case(c, (uint64_t)ci); if (ci % 4 == 0) c01_oversize(c, (uint64_t)ci); } else if (P == "C03") c03_case(c, (uint64_t)ci); else if (P == "C04") c04_c02_case(c, (uint64_t)ci, false); else if (P == "C02") c04_c02_case(c, (uint64_t)ci, true);
       else if (P == "C05") c05_case(c, (uint64_t)ci); else if (P == "C06") c06_case(c, (uint64_t)ci); else if (P == "C10") c10_case(c, (uint64_t)ci); else if (P == "C11") c11_case(c, (uint64_t)ci);
     }
@@ -773,6 +775,7 @@ int vf::engine_main() {
     if (ran) types_run++;
   }
   rep().counters["types_exercised_by_this_worker_max"] = types_run;
+  if ((P == "C01" || P == "C05" || P == "C06" || P == "C10") && (a.only_type.empty() || a.only_type.compare(0, 6, "forms:") == 0)) forms_stage(P);
   if (P == "C06" && a.worker == 0 && !a.replay()) c06_huge();
   if (P == "C10" && ((a.worker == 0 && !a.replay()) || a.only_type == "rpc")) c10_rpc();
   return 0;
